@@ -1,6 +1,108 @@
 -------------------------------- MODULE JC03 --------------------------------
-(* C03 — contract of the recorded events of this property (stub).           *)
+(* C03 — multiplication and squaring return the exact product in the        *)
+(* documented shape, on limbs, fixed (Uint, Int) and boxed integers.        *)
+(*                                                                          *)
+(* Event classes (field op); ab, bb are the operand widths in bits:         *)
+(*  "mul"  a, b      the product is p = a * b                               *)
+(*  "sq"   a         the product is p = a * a   (bb = ab)                   *)
+(*  "isq"  a         a is a two's-complement pattern at ab bits; the result *)
+(*                   is the unsigned p = |a|^2                              *)
+(*    with the shape tag sh of the form that was called:                    *)
+(*      "split"   -> lo, hi     lo = p mod 2^ab, hi = p div 2^ab (< 2^bb):  *)
+(*                              every limb of the product                   *)
+(*      "wide"    -> r          r = p          (boxed: precision rp = ab+bb)*)
+(*      "wrap"    -> r          r = p mod 2^ab (boxed: rp = ab)             *)
+(*      "checked" -> some(r) exactly when p < 2^ab, and then r = p          *)
+(*      "sat"     -> r          r = p, or 2^ab - 1 exactly when p >= 2^ab   *)
+(*      "panic"   -> r = p when p < 2^ab; a panic exactly when p >= 2^ab    *)
+(*      "op"      -> BoxedUint operators consuming an operand (a * b,       *)
+(*                   a * &b, &a * b, a *= b): they carry no documentation;  *)
+(*                   in the tree they widen whereas &a * &b checks.  Either *)
+(*                   shape is accepted, but the value must be the exact     *)
+(*                   product in that shape (never a wrapped one).           *)
+(*  "mac"  a, b, c, cy -> lo, hi   a + b*c + cy = lo + 2^64 hi, lo, hi < 2^64*)
+(*  "imul" a, b two's-complement patterns at ab, bb bits (bu = 1: b is an   *)
+(*         unsigned Uint), z = the signed product:                          *)
+(*      "isplit"   -> lo (lb bits), hi, neg: lo + 2^lb hi = |z|; neg = 1    *)
+(*                    iff the operands have opposing signs; when the        *)
+(*                    magnitude is zero and the sign bits oppose, the doc   *)
+(*                    note allows either value of neg                       *)
+(*      "iwide"    -> r = z as a pattern at ab + bb bits                    *)
+(*      "ichecked" -> some(r) exactly when z is in [MIN, MAX] at rb bits    *)
+(*      "ipanic"   -> r, or a panic exactly when z is out of that range     *)
 EXTENDS BigNat
 
-JudgeC03(e, rg) == FALSE
+LOCAL C03_Has(e, f) == f \in DOMAIN e
+
+\* precision of a boxed result, when logged
+LOCAL C03_Prec(e, bits) == C03_Has(e, "rp") => e.rp = bits
+
+LOCAL C03_OkR(e, v, bits) ==
+  /\ e.k = "ok"
+  /\ C03_Has(e, "r")
+  /\ e.r = v
+  /\ C03_Prec(e, bits)
+
+\* unsigned shapes over the exact product p
+LOCAL C03_Shape(e, p, ab, bb) ==
+  LET fits == Fits(p, ab) IN
+  CASE e.sh = "split" ->
+         /\ e.k = "ok"
+         /\ C03_Has(e, "lo") /\ C03_Has(e, "hi")
+         /\ e.lo = Mod2k(p, ab)
+         /\ e.hi = Shr(p, ab)
+         /\ Fits(e.hi, bb)
+         /\ Add(e.lo, Shl(e.hi, ab)) = p
+    [] e.sh = "wide"    -> C03_OkR(e, p, ab + bb)
+    [] e.sh = "wrap"    -> C03_OkR(e, Mod2k(p, ab), ab)
+    [] e.sh = "checked" -> IF fits THEN C03_OkR(e, p, ab) ELSE e.k = "none"
+    [] e.sh = "sat"     -> C03_OkR(e, IF fits THEN p ELSE Max2k(ab), ab)
+    [] e.sh = "panic"   -> IF fits THEN C03_OkR(e, p, ab) ELSE e.k = "panic"
+    [] e.sh = "op"      -> \/ C03_OkR(e, p, ab + bb)                    \* widening operator
+                           \/ (fits /\ C03_OkR(e, p, ab))               \* checking operator, no overflow
+                           \/ (~fits /\ e.k = "panic")                  \* checking operator, overflow
+    [] OTHER -> FALSE
+
+LOCAL C03_Mac(e) ==
+  LET t == Add(Add(e.a, Mul(e.b, e.c)), e.cy) IN
+  /\ e.k = "ok"
+  /\ C03_Has(e, "lo") /\ C03_Has(e, "hi")
+  /\ e.lo = Mod2k(t, 64)
+  /\ e.hi = Shr(t, 64)
+  /\ Fits(e.hi, 64)
+
+\* signed product
+LOCAL C03_Rhs(e) == IF e.bu = 1 THEN [neg |-> FALSE, mag |-> e.b] ELSE SVal(e.b, e.bb)
+
+LOCAL C03_OkI(e, z, bits) ==
+  /\ e.k = "ok"
+  /\ C03_Has(e, "r")
+  /\ e.r = SEnc(z, bits)
+  /\ Fits(e.r, bits)
+
+LOCAL C03_IMul(e) ==
+  LET x == SVal(e.a, e.ab)
+      y == C03_Rhs(e)
+      z == SMul(x, y)
+  IN
+  CASE e.sh = "isplit" ->
+         /\ e.k = "ok"
+         /\ C03_Has(e, "lo") /\ C03_Has(e, "hi") /\ C03_Has(e, "neg")
+         /\ e.lo = Mod2k(z.mag, e.lb)
+         /\ e.hi = Shr(z.mag, e.lb)
+         /\ e.neg \in {0, 1}
+         /\ (e.neg = 1) => (x.neg # y.neg)                 \* never "negate" a product of like signs
+         /\ (z.mag # Zero) => ((e.neg = 1) <=> (x.neg # y.neg))
+    [] e.sh = "iwide"    -> C03_OkI(e, z, e.ab + e.bb)
+    [] e.sh = "ichecked" -> IF SFits(z, e.rb) THEN C03_OkI(e, z, e.rb) ELSE e.k = "none"
+    [] e.sh = "ipanic"   -> IF SFits(z, e.rb) THEN C03_OkI(e, z, e.rb) ELSE e.k = "panic"
+    [] OTHER -> FALSE
+
+JudgeC03(e, rg) ==
+  CASE e.op = "mul"  -> C03_Shape(e, Mul(e.a, e.b), e.ab, e.bb)
+    [] e.op = "sq"   -> C03_Shape(e, Mul(e.a, e.a), e.ab, e.ab)
+    [] e.op = "isq"  -> LET m == SVal(e.a, e.ab).mag IN C03_Shape(e, Mul(m, m), e.ab, e.ab)
+    [] e.op = "mac"  -> C03_Mac(e)
+    [] e.op = "imul" -> C03_IMul(e)
+    [] OTHER -> FALSE
 =============================================================================
